@@ -183,7 +183,8 @@ def type_only_arms(fx, er, skip_front=True):
 
 def run(tier):
     ck = Check("C03", tier, "computed erasable-ADT set (type-graph reachability) + who-may-read rule over every MIR place projection + match-arm emptiness",
-               ["that the parser yields the same non-type AST with and without annotations (speculative parsing is value dependent)",
+               ["that the grammar as a whole yields the same non-type AST with and without annotations (speculative parsing is value dependent); "
+                "only the agreement of identifier-like token-kind sets is decided (R4)",
                 "value-level flags such as `declare`, accessibility or `readonly` modifiers"])
     fx = F.load("A")
     ck.configs.append("A: cargo +nightly check --lib --features c-api")
